@@ -34,7 +34,8 @@ Inductive rv :=
 | VRef (path : list string)              (* `let inner = self.rc_deref_mut()`: a name for a place inside self *)
 | VMark (e : ev)                         (* a user callback / an upstream subscription whose call is an observation: calling it
                                             (f(), or .unsubscribe()) appends e to the output *)
-| VMarkArg.                              (* a user callback whose call with an item / an error appends Next item / Err error *)
+| VMarkArg                               (* a user callback whose call with an item / an error appends Next item / Err error *)
+| VClosTok.                              (* a closure / function item that is only passed on (an operator's parameter) *)
 
 Definition env := list (string * rv).
 
@@ -472,6 +473,26 @@ Fixpoint last_seg_aux (acc : string) (p : string) : string :=
   end.
 Definition last_seg (p : string) : string := last_seg_aux p p.
 
+(* `TakeOp::new` -> `TakeOp` *)
+Fixpoint before_last_seg (p : string) : string :=
+  match p with
+  | EmptyString => EmptyString
+  | String c r =>
+      if String.eqb (last_seg p) p then EmptyString
+      else match r with
+           | String c2 r2 =>
+               if (neqb (Ascii.nat_of_ascii c) 58 && neqb (Ascii.nat_of_ascii c2) 58 && String.eqb (last_seg r2) r2)%bool
+               then EmptyString else String c (before_last_seg r)
+           | EmptyString => String c EmptyString
+           end
+  end.
+
+Definition digit_name (n : nat) : string :=
+  match n with 0 => "0" | 1 => "1" | 2 => "2" | 3 => "3" | 4 => "4" | _ => "5" end%nat.
+
+Fixpoint positional {A} (n : nat) (vs : list A) : list (string * A) :=
+  match vs with [] => [] | v :: r => (digit_name n, v) :: positional (S n) r end.
+
 Definition capitalised (p : string) : bool :=
   match p with
   | String c _ => let n := Ascii.nat_of_ascii c in nleb 65 n && nleb n 90
@@ -524,7 +545,11 @@ Definition find_impl (p : prog) (file name m : string) : option (list string * l
       | None =>
           match find_macro p (file ++ ":$")%string m with   (* an impl written for a macro parameter: $name<O>, $subscriber<O> *)
           | Some b => Some b
-          | None => find_any p name m        (* a struct of another file (an observer wrapped by this one) *)
+          | None =>
+              match find_any p name m with      (* a struct of another file (an observer wrapped by this one) *)
+              | Some b => Some b
+              | None => find_method p "observable.rs:ObservableExt" m     (* an operator value: the trait's default methods *)
+              end
           end
       end
   end.
@@ -650,6 +675,11 @@ Fixpoint eval_x (fuel : nat) (s : st) (e : rx) {struct fuel} : option (st * rv) 
               | Some (s', vs) => match apply_closure clo vs with Some r => Some (s', r) | None => None end
               | None => None end
           | None =>
+              if String.eqb (last_seg p) "new" then        (* Type::new(a, b): the operator value, fields by position *)
+                match eval_args f s args with
+                | Some (s', vs) => Some (s', VStruct (before_last_seg p) (positional 0 vs))
+                | None => None end
+              else
               if capitalised (last_seg p) then           (* a variant of one of the crate's enums *)
                 match eval_args f s args with
                 | Some (s', vs) => Some (s', VEnum (last_seg p) vs)
@@ -719,6 +749,16 @@ Fixpoint eval_x (fuel : nat) (s : st) (e : rx) {struct fuel} : option (st * rv) 
                         | None => None end
                     | None => None end
                 | Some rcv =>
+                    match (match rcv with VSrc => find_method P "observable.rs:ObservableExt" m | _ => None end) with
+                    | Some (ps, body) =>
+                        (* a default method of ObservableExt called on the upstream observable *)
+                        match zip_params ps vs with
+                        | Some locals =>
+                            match eval_block f ({| fself := rcv; flocals := locals |}, out2) body with
+                            | Some ((_, out3), res) => Some ((fr2, out3), res)
+                            | None => None end
+                        | None => None end
+                    | None =>
                     match builtin m rcv vs with
                     | Some (res, rcv', evs) =>
                         match pl with
@@ -727,6 +767,7 @@ Fixpoint eval_x (fuel : nat) (s : st) (e : rx) {struct fuel} : option (st * rv) 
                         | None => Some ((fr2, out2 ++ evs), res)
                         end
                     | None => None end
+                    end
                 | None => None end
             | None => None end
         | None => None end
@@ -826,7 +867,8 @@ Fixpoint eval_x (fuel : nat) (s : st) (e : rx) {struct fuel} : option (st * rv) 
                | Some (s2, VBool false) => Some (s2, VUnit)
                | _ => None end
            end) fuel s
-    | XWhileLet _ _ _ | XReturn _ | XClosure _ _ | XUnknown _ => None
+    | XClosure _ _ => Some (s, VClosTok)
+    | XWhileLet _ _ _ | XReturn _ | XUnknown _ => None
     end
   end
 
